@@ -11,6 +11,30 @@ CHECKS = {
         "note": "Reals for floats; sympy normal forms and pyvc's differentiation rules are trusted (cross-checked at 50 digits per run); z_factor_DAK is an uninterpreted function (both sides use the same Z).",
         "technique": "VC generation from the AST + CAS identity proof (sympy) and SMT (z3) over contracts of the real functions",
     },
+    "C05": {
+        "category": "proof",
+        "text": "Scaling law (M*rf(t/tau), linearity, rescaling), Bounds validation, guess regularisation (finite and half-infinite bounds) and containment / fixed-tau clauses of fit() are SMT/CAS obligations generated from the AST of forecast.py with rf uninterpreted; 10 obligations. The round-trip clause (fitting noise-free data recovers M, tau) cannot be proved (optimiser convergence) and is a BOUNDED run-time contract, reported separately.",
+        "note": "Assumed contract of scipy.optimize.curve_fit (ValueError unless lo<=p0<=hi; result within bounds); reals for floats; 'malformed' = wrong length or lo>=hi.",
+        "technique": "VC generation from the AST, path enumeration, SMT (z3) + CAS; bounded run-time contract for the round trip",
+    },
+    "C06": {
+        "category": "other",
+        "text": "z_factor_DAK's postcondition is derived from the root finder's contract: the closure handed to brentq is extracted from the AST and shown to be the DAK residual of the returned Z (CAS), to change sign across the code's bracket on the whole rectangle and to be strictly monotone (interval branch-and-bound), with Z_eos(0)=1; all density coefficients but the first equal the published equation. The first coefficient differs (known finding F1), so the level is 'other', not proof. Hall-Yarbrough agreement is a BOUNDED clause.",
+        "note": "brentq idealised (exact root when signs differ, tolerances <= 1e-10 demanded); 'strictly increasing continuous => unique continuous root' is a textbook lemma not re-proved; sympy rewriting re-checked at 50 digits.",
+        "technique": "VC generation from the AST; CAS identities + outward-rounded interval branch-and-bound; bounded run-time contract for Hall-Yarbrough",
+    },
+    "C07": {
+        "category": "other",
+        "text": "Density*FVF identities for gas, oil (both sides of the bubble point) and water, the real-gas-law form, 'same Z everywhere', purity, compressibility = d ln(rho)/dp by implicit differentiation, viscosity positive and increasing are CAS / INT obligations on terms extracted from the real source with Z opaque. cg.implicit fails in the first density coefficient (known finding F2) while cg.published proves every term against the published equation, so other defects are not masked; hence 'other'.",
+        "note": "Z_DAK uninterpreted with the C06 postconditions (0.05<Z<5, rho_r increasing in p_r); sympy + pyvc.diff trusted and re-checked numerically.",
+        "technique": "VC generation from the AST; CAS identities (sympy) + interval branch-and-bound",
+    },
+    "C14": {
+        "category": "proof",
+        "text": "relative_permeabilities is executed symbolically on a record array of symbolic length: the eight paths give 'raises ValueError iff a record does not sum to one or a parameter is out of range'; on the returning path well-definedness of every division / real power, 0 <= k <= k_max, k = 0 at or below residual and monotonicity are SMT obligations at symbolic record indices; the two-phase helper's columns follow from the linspace model. 6 obligations.",
+        "note": "Real powers uninterpreted with three textbook axioms instantiated at the goal's power terms; np.any / pandas table models assumed; residuals summing to < 1 is part of admissibility.",
+        "technique": "VC generation from the AST over symbolic-length record arrays; SMT (z3) with instantiated power axioms",
+    },
 }
 
 NOT_APPLICABLE = {f"C{i:02d}": _PENDING for i in range(1, 21)}
